@@ -55,14 +55,29 @@ def run(ck):
         det_cases.append({"k": "det", "id": cid, "rule": text, "docs": docs, "sw": SWS, "reps": max(reps, 10), "threads": 4})
         rule_cases.append({"k": "rule", "id": cid, "rule": text, "docs": docs, "sw": SWS})
         ck.count("family:" + fam)
+    # rules that share a regex SOURCE but not its case mode, and rules that share needles: whatever one
+    # rule's optimisation leaves behind in the process must not reach the next (the second process below
+    # sees all cases in the opposite order, i.e. with a different history)
+    for src, hay in (("pow.rsh", "POWERSHELL"), ("^ab+c$", "ABBC"), ("x[0-9]+", "X42"), (".*foo.*", "FOO"), ("a|b", "B")):
+        for pats in (["?" + src], ["i?" + src], ["?" + src, "i?" + src + "z"], ["i?" + src, "?" + src + "z"]):
+            for shape in ("scalar", "seq"):
+                det = {"A": {"f": pats[0]} if (shape == "scalar" and len(pats) == 1) else [{"f": q} for q in pats] + [{"g": "?" + src}],
+                       "condition": "A"}
+                docs = [D({"f": hay}), D({"f": hay.lower()}), D({"g": hay}), D({"g": hay.lower()}), D({})]
+                cid = ck.new_id()
+                text = rule_text(det)
+                det_cases.append({"k": "det", "id": cid, "rule": text, "docs": docs, "sw": [0, 4, 6, 15], "reps": 3, "threads": 2})
+                rule_cases.append({"k": "rule", "id": cid, "rule": text, "docs": docs, "sw": [0, 4, 6, 15]})
+                ck.count("family:same_regex_source_two_case_modes")
     wit = rulebase.known_witnesses("C12")
     wcases = []
     for entry, w in wit:
         if w:
             wcases.append({"k": "det", "id": ck.new_id(), "rule": w["rule"], "docs": [w["doc"]], "sw": [w["sw"]], "reps": 40, "threads": 2, "_e": entry, "_w": w})
     impl, _, _ = lib.run_cases(rulebase.wire(det_cases + wcases), "C12det")
-    # a second process: the same cases again, results must be identical where nothing is order dependent
-    impl2, _, _ = lib.run_cases(rulebase.wire(det_cases), "C12det2")
+    # a second process: the same cases again IN THE OPPOSITE ORDER (a different history of loads and
+    # optimisations before each case), results must be identical where nothing is order dependent
+    impl2, _, _ = lib.run_cases(rulebase.wire(list(reversed(det_cases))), "C12det2")
     for c in rule_cases:
         c["otrees"] = True      # optimised trees, structurally, against the model under Order.rust_ord
     implr, modelr, _ = lib.run_cases(rulebase.wire(rule_cases), "C12rule", runner_args=["--known"])
